@@ -3,7 +3,9 @@
 import glob, os, subprocess, sys
 V = os.path.dirname(os.path.dirname(os.path.abspath(__file__)))
 bad = 0
-env = dict(os.environ, JAVA_TOOL_OPTIONS="-DTLA-Library=" + os.path.join(V, "specs", "common"))
+TMP = os.path.join(V, "build", "sanytmp")
+os.makedirs(TMP, exist_ok=True)
+env = dict(os.environ, JAVA_TOOL_OPTIONS="-DTLA-Library=" + os.path.join(V, "specs", "common") + " -Djava.io.tmpdir=" + TMP)
 files = sorted(glob.glob(os.path.join(V, "specs", "*", "*.tla")))
 from concurrent.futures import ThreadPoolExecutor
 def one(f):
@@ -16,5 +18,7 @@ with ThreadPoolExecutor(8) as ex:
         if not ok:
             bad += 1
             print("SANY FAILED:", f, "\n", out)
+import shutil
+shutil.rmtree(TMP, ignore_errors=True)
 print("sany: %d modules, %d failed" % (len(files), bad))
 sys.exit(1 if bad else 0)
